@@ -155,3 +155,80 @@ Lemma sample_publish :
      Del 0 (Err 1); Del 2 (Err 1); Del 3 (Err 1); Del 0 (Err 2); Del 3 (Err 2); Del 0 (Err 3); Del 0 (Err 3); Del 2 (Err 3);
      Del 0 (Err 2); Del 0 (Err 3); Del 1 (Err 3); Del 2 (Err 3); Del 0 (Err 2); Del 1 (Err 2)].
 Proof. vm_compute. reflexivity. Qed.
+
+(* ---------- level filter over histories ---------- *)
+Lemma list_eqb_eq a : forall b, list_eqb a b = true <-> a = b.
+Proof.
+  induction a as [|x a IH]; intros [|y b]; cbn; split; intros H; try reflexivity; try discriminate.
+  - apply andb_prop in H. destruct H as [H1 H2]. apply Nat.eqb_eq in H1. apply IH in H2. congruence.
+  - inversion H; subst. rewrite Nat.eqb_refl. cbn. apply IH. reflexivity.
+Qed.
+
+Lemma find_set_key k v c ns : find_ns (set_key k v c) ns = if list_eqb k ns then Some v else find_ns c ns.
+Proof.
+  induction c as [|[k' v'] r IH]; cbn; [reflexivity|].
+  destruct (list_eqb k' k) eqn:E; cbn.
+  - apply list_eqb_eq in E. subst k'. destruct (list_eqb k ns); reflexivity.
+  - rewrite IH. destruct (list_eqb k' ns) eqn:E'; [|reflexivity].
+    destruct (list_eqb k ns) eqn:E''; [|reflexivity].
+    apply list_eqb_eq in E', E''. subst. rewrite (proj2 (list_eqb_eq ns ns) eq_refl) in E. discriminate.
+Qed.
+
+Definition frel (d0 : nat) (s : fstate) (h : list fop) : Prop :=
+  (forall ns, find_ns (fcfg s) ns = latest h ns) /\ fdflt s = latest_default d0 h /\ fdef0 s = d0.
+
+Lemma frel_step d0 s h o : frel d0 s h -> frel d0 (fstep s o) (o :: h).
+Proof.
+  intros (A & B & C). destruct o as [[|a k] l | | ns | lvl ns]; unfold frel;
+    cbn [fstep fcfg fdflt fdef0 latest latest_default]; (split; [|split; assumption || reflexivity]); try exact A.
+  - intros ns. rewrite find_set_key, A. reflexivity.
+  - intros ns. reflexivity.
+Qed.
+
+Lemma try_prefixes_ext c look ns : (forall p, find_ns c p = look p) ->
+  forall k, try_prefixes c ns k = try_prefixes_f look ns k.
+Proof. intros H. induction k as [|k IH]; [reflexivity|]. cbn [try_prefixes try_prefixes_f]. rewrite H, IH. reflexivity. Qed.
+
+Lemma frel_level d0 s h ns : frel d0 s h -> level_for (fcfg s) (fdflt s) ns = level_spec d0 h ns.
+Proof.
+  intros (A & B & _). unfold level_for, level_spec. rewrite (try_prefixes_ext _ _ ns A), B. reflexivity.
+Qed.
+
+Lemma frun_spec_gen d0 ops : forall s h, frel d0 s h -> frun s ops = spec_run d0 h ops.
+Proof.
+  induction ops as [|o r IH]; intros s h H; [reflexivity|]. cbn [frun spec_run]. f_equal.
+  - destruct o as [? ? | | ns | lvl ns]; cbn; try reflexivity.
+    + rewrite (frel_level d0 s h ns H). reflexivity.
+    + unfold passes. rewrite (frel_level d0 s h ns H). reflexivity.
+  - apply IH. apply frel_step. exact H.
+Qed.
+
+(** for EVERY history of set / clear / query / filter calls on one predicate, every answer equals the naive
+    reading of the calls made so far: latest setting per namespace since the last clear, longest configured
+    prefix, else the latest default — nothing else (no memory of earlier queries) influences it *)
+Lemma frun_spec d0 ops : frun (finit d0) ops = spec_run d0 [] ops.
+Proof. apply frun_spec_gen. repeat split. Qed.
+
+(** ... and that naive reading picks the longest configured prefix *)
+Lemma level_spec_most_specific d0 h ns :
+  (exists j, 1 <= j <= length ns /\ latest h (firstn j ns) = Some (level_spec d0 h ns)
+             /\ forall i, j < i <= length ns -> latest h (firstn i ns) = None)
+  \/ (level_spec d0 h ns = latest_default d0 h /\ forall i, 1 <= i <= length ns -> latest h (firstn i ns) = None).
+Proof.
+  unfold level_spec.
+  assert (G : forall k, match try_prefixes_f (latest h) ns k with
+                        | Some v => exists j, 1 <= j <= k /\ latest h (firstn j ns) = Some v
+                                              /\ forall i, j < i <= k -> latest h (firstn i ns) = None
+                        | None => forall i, 1 <= i <= k -> latest h (firstn i ns) = None
+                        end).
+  { induction k as [|k IH]; cbn [try_prefixes_f]; [intros i Hi; lia|].
+    destruct (latest h (firstn (S k) ns)) eqn:E.
+    - exists (S k). split; [lia|]. split; [exact E|]. intros i Hi. lia.
+    - destruct (try_prefixes_f (latest h) ns k) as [v|].
+      + destruct IH as (j & Hj & Ej & Hn). exists j. split; [lia|]. split; [exact Ej|].
+        intros i Hi. destruct (Nat.eq_dec i (S k)) as [-> | Hne]; [exact E | apply Hn; lia].
+      + intros i Hi. destruct (Nat.eq_dec i (S k)) as [-> | Hne]; [exact E | apply IH; lia]. }
+  specialize (G (length ns)). destruct (try_prefixes_f (latest h) ns (length ns)) as [v|].
+  - left. exact G.
+  - right. split; [reflexivity | exact G].
+Qed.
